@@ -17,7 +17,8 @@
                      implementation centroids agree bit for bit) no centroid is nearer
                      to a vector than its assigned one
     deterministic    running twice gives identical bits; input_unchanged
-    twice_trained    two indexes trained on the same data hold identical centroids /
+    twice_trained    two indexes trained on the same data — also when one of them had been
+                     trained on other data before (`iretrain`) — hold identical centroids /
                      codebooks and answer every query identically (score sequences equal;
                      id sets equal within every score group that `k` did not cut — Go's
                      aggregation iterates over a map, so the order inside a tie is free)
@@ -27,6 +28,15 @@
                      |x'−x| ≤ absMax/254 for |x| ≤ absMax (cases that need the float32
                      slack absMax·2⁻²¹ on top are counted as `f32slack`), untrained → error
                      both ways.
+    instances        quantizers come from `NewQuantizer` (all kinds; unknown kinds are
+                     refused) or from the struct literals; several int8 quantizers in one
+                     process are independent: training / SetAbsMax on one leaves the others
+                     untrained and refusing, a second one trained with another range does
+                     not rescale the first, each reconstructs within its OWN absMax/254;
+                     Type / IsTrained / the no-op Train of the stateless kinds; wrong stored
+                     types are refused
+    pqparams         `CalculatePQParams` = the model's value; whether `NewPQIndex` accepts it
+                     is compared with the model and histogrammed (`divides`)
 -/
 import Comet.Driver.Dist
 import Comet.KMeans
@@ -103,8 +113,38 @@ def tieGroupsEqual (k : Int) (total : Nat) (a b : List (Hit UInt32)) : Bool :=
    (a.map (·.score)).eraseDups.all fun s =>
      (cut && lastScore == some s) || grp a s == grp b s)
 
+
+/-- `|x'−x| ≤ A/254` for every `|x| ≤ A` (exact), or within the float32 slack `A·2⁻²¹` on top -/
+def int8Within (A : Int) (v d : V) (slack : Bool) : Bool :=
+  (List.zipWith (fun (x y : Float32) =>
+    !(decide (mag x ≤ A)) ||
+      decide (iabs (toInt y - toInt x) * 254 * 2097152 ≤ A * 2097152 + (if slack then A * 254 else 0))) v d).all id
+
+/-- `<ints>;<vec>` or `untrained` -/
+def showUse (q : Option (List Int)) (d : Option V) : String :=
+  match q, d with
+  | some q, some d => hints q ++ ";" ++ hv d
+  | _, _ => "untrained"
+
+def probeTok (trained : Bool) : String := if trained then "100" else "011"
+
+def splitBar (l : List String) : List (List String) :=
+  let rec go (fuel : Nat) (l : List String) (acc : List (List String)) : List (List String) :=
+    match fuel with
+    | 0 => acc.reverse
+    | fuel + 1 =>
+      let a := l.takeWhile (· != "|")
+      let rest := l.dropWhile (· != "|")
+      match rest with
+      | [] => (a :: acc).reverse
+      | _ :: t => go fuel t (a :: acc)
+  go (l.length + 1) l []
+
 def op (st : St) (toks : List String) : St × String :=
   let (pre, post) := splitOutcome toks
+  -- `iretrain`: the first copy was trained before on other data, the second is fresh; same clauses
+  let retrain := pre.head? == some "iretrain"
+  let pre := if retrain then "itrain" :: pre.drop 1 else pre
   match pre with
   | ["kmeans", fn, metric, k, mi, vs] =>
     match Kind.parse metric, k.toInt?, mi.toInt?, pvs vs with
@@ -159,7 +199,7 @@ def op (st : St) (toks : List String) : St × String :=
         else ivfpqTrain f32 kind p1 p2 (2 ^ p3) (dim / p2) vs
       match post, model with
       | ["err", detst, unch], none =>
-        (st, verdict [("twice_trained_same_state", detst == "1"), ("input_unchanged", unch == "1")] none "trainerr=1")
+        (st, verdict [("twice_trained_same_state", detst == "1"), ("input_unchanged", unch == "1")] none s!"trainerr=1 retrain={b01 retrain}")
       | ["err", _, _], some _ => (st, "DIFF itrain model=ok impl=err")
       | ["ok", cs, cb, detst, unch], m =>
         match pvs cs, pvs cb with
@@ -168,7 +208,7 @@ def op (st : St) (toks : List String) : St × String :=
             | none => some "itrain model=err impl=ok"
             | some (mc, mcb) => firstDiff [cmpTok "centroids" (hvs mc) (hvs ics), cmpTok "codebooks" (hvs mcb) (hvs icb)]
           (st, verdict [("twice_trained_same_state", detst == "1"), ("input_unchanged", unch == "1")] diff
-            s!"n={vs.length} ivf={b01 (typ == "ivf")} pq={b01 (typ == "pq")} ivfpq={b01 (typ == "ivfpq")}")
+            s!"n={vs.length} ivf={b01 (typ == "ivf")} pq={b01 (typ == "pq")} ivfpq={b01 (typ == "ivfpq")} retrain={b01 retrain}")
         | _, _ => (st, "BADOP itrain outcome parse")
       | _, _ => (st, "BADOP itrain outcome")
     | _, _, _, _, _ => (st, "BADOP itrain")
@@ -192,18 +232,20 @@ def op (st : St) (toks : List String) : St × String :=
         | _, _ => (st, "BADOP isearch hits")
       | _, _ => (st, "SPECFAIL twice_trained_search_identical one-errs-other-not")
     | _, _ => (st, "BADOP isearch")
-  | ["qfull", v] =>
+  | ["qfull", via, v] =>
     match pv v, post with
-    | some v, [q, d, unch, fresh] =>
+    | some v, [q, d, unch, fresh, typ, trained, wrongRefused] =>
       match pv q, pv d with
       | some iq, some idq =>
         (st, verdict [("q_full_exact", hv idq == hv v && hv iq == hv v), ("q_len_preserved", iq.length == v.length && idq.length == v.length),
-          ("input_unchanged", unch == "1"), ("fresh_copy", fresh == "1")] none s!"n={v.length}")
+          ("input_unchanged", unch == "1"), ("fresh_copy", fresh == "1"),
+          ("q_full_type_trained", typ == "float32" && trained == "1"), ("q_wrong_stored_type_refused", wrongRefused == "1")] none
+          s!"n={v.length} factory={b01 (via == "factory")}")
       | _, _ => (st, "BADOP qfull outcome parse")
     | _, _ => (st, "BADOP qfull")
-  | ["qhalf", v] =>
+  | ["qhalf", via, v] =>
     match pv v, post with
-    | some v, [q, d, unch] =>
+    | some v, [q, d, unch, typ, trained, wrongRefused] =>
       match (if q == "-" then some [] else (q.splitOn ",").mapM parseHex), pv d with
       | some iq, some idq =>
         if !(allFinite v) then (st, "UNSUPPORTED qhalf non-finite input") else
@@ -220,20 +262,22 @@ def op (st : St) (toks : List String) : St × String :=
             !(normal x) || (finite32 y && decide (iabs (toInt y - toInt x) * 2048 ≤ mag x))) v idq).all id
         let nNormal := (v.filter normal).length
         (st, verdict [("q_len_preserved", iq.length == v.length && idq.length == v.length), ("input_unchanged", unch == "1"),
-          ("q_half_error", errOk)] diff
-          s!"n={v.length} normal={nNormal} subnormal={b01 (v.any fun x => !(normal x) && decide (mag x < (2 : Int) ^ 135) && !(x == 0))} overflow={b01 (mq.any fun p => p.2.isNone)}")
+          ("q_half_error", errOk), ("q_half_type_trained", typ == "float16" && trained == "1"),
+          ("q_wrong_stored_type_refused", wrongRefused == "1")] diff
+          s!"n={v.length} factory={b01 (via == "factory")} normal={nNormal} subnormal={b01 (v.any fun x => !(normal x) && decide (mag x < (2 : Int) ^ 135) && !(x == 0))} overflow={b01 (mq.any fun p => p.2.isNone)}")
       | _, _ => (st, "BADOP qhalf outcome parse")
     | _, _ => (st, "BADOP qhalf")
-  | ["qint8", tv, v] =>
+  | ["qint8", via, tv, v] =>
     match pvs tv, pv v with
     | some tv, some v =>
       let mA := trainAbsMax f32 tv
       match post with
-      | ["untrained", amax, deqerr, unch] =>
+      | ["untrained", amax, deqerr, unch, typ] =>
         let diff := firstDiff [cmpTok "absMax" (hx mA) amax,
           cmpTok "trained" (b01 (isTrained f32 mA)) "0"]
-        (st, verdict [("q_int8_untrained_err", deqerr == "1"), ("input_unchanged", unch == "1")] diff "untrained=1")
-      | [amax, q, d, unch] =>
+        (st, verdict [("q_int8_untrained_err", deqerr == "1"), ("input_unchanged", unch == "1"), ("q_int8_type", typ == "int8")] diff
+          s!"untrained=1 factory={b01 (via == "factory")}")
+      | [amax, q, d, unch, typ] =>
         match pf amax, pints q, pv d with
         | some iA, some iq, some idq =>
           let mq := quantInt8 f32 f32round mA v
@@ -251,11 +295,68 @@ def op (st : St) (toks : List String) : St × String :=
           let inside := (v.filter fun x => decide (mag x ≤ A)).length
           (st, verdict [("q_int8_trained_iff_absmax_pos", decide (toInt iA > 0)),
             ("q_len_preserved", iq.length == v.length && idq.length == v.length), ("input_unchanged", unch == "1"),
-            ("q_int8_error", slackOk)] diff
-            s!"n={v.length} inside={inside} f32slack={b01 (!exactOk)} outside={b01 (inside < v.length)}")
+            ("q_int8_type", typ == "int8"), ("q_int8_error", slackOk)] diff
+            s!"n={v.length} factory={b01 (via == "factory")} inside={inside} f32slack={b01 (!exactOk)} outside={b01 (inside < v.length)}")
         | _, _, _ => (st, "BADOP qint8 outcome parse")
       | _ => (st, "BADOP qint8 outcome")
     | _, _ => (st, "BADOP qint8")
+  | ["qmulti", via, cnt, mode, arg, tvB, v] =>
+    match cnt.toNat?, pvs tvB, pv v with
+    | some n, some tvB, some v =>
+      -- absMax the first quantizer gets: trained on `arg`, or set to it
+      let mA? : Option Float32 := if mode == "set" then pf arg else (pvs arg).map (trainAbsMax f32)
+      match mA?, splitBar post with
+      | some mA, [[distinct, types, pre], [amax1, mid], [amax2], [r0], [r1], [last, unch], [amax3]] =>
+        match pfs amax1, pfs amax2, pfs amax3 with
+        | some ia1, some ia2, some ia3 =>
+          let mB := trainAbsMax f32 tvB
+          let zero : Float32 := 0
+          let others := List.replicate (n - 2) zero
+          let exp1 := mA :: zero :: others
+          let exp2 := mA :: mB :: others
+          let use (A : Float32) : String :=
+            showUse (quantInt8 f32 f32round A v) ((quantInt8 f32 f32round A v).bind fun q => deqInt8 f32 A q)
+          let diff := firstDiff [cmpTok "absMax-after-first" (hfs exp1) (hfs ia1), cmpTok "absMax-after-second" (hfs exp2) (hfs ia2),
+            cmpTok "first-quantizer" (use mA) r0, cmpTok "second-quantizer" (use mB) r1]
+          -- property level, on the implementation's outputs
+          let ownOk (r : String) (A : Float32) : Bool :=
+            match r.splitOn ";" with
+            | [_, d] => (match pv d with | some d => int8Within (mag A) v d true | none => false)
+            | _ => r == "untrained" && !(isTrained f32 A)
+          let a1 (i : Nat) : Float32 := ia1.getD i zero
+          let a2 (i : Nat) : Float32 := ia2.getD i zero
+          let allUntrained (s : String) (k : Nat) : Bool := s == ",".intercalate (List.replicate k "011")
+          let checks : List (String × Bool) := [
+            ("q_int8_type", types == ",".intercalate (List.replicate n "int8")),
+            ("q_int8_fresh_untrained_refuses", allUntrained pre n),
+            ("q_int8_instances_independent_after_first",
+              ia1.length == n && ((ia1.drop 1).all fun x => x.toBits == 0) && allUntrained mid (n - 1)),
+            ("q_int8_instances_independent_after_second",
+              ia2.length == n && hx (a2 0) == hx (a1 0) && ((ia2.drop 2).all fun x => x.toBits == 0) && (last == "-" || last == "011")),
+            ("q_int8_instances_independent_setabsmax",
+              ia3.length == n && hfs (ia3.drop 1) == hfs (ia2.drop 1) && hfs (ia3.take 1) == "40500000"),
+            ("q_int8_error_own_range_first", ownOk r0 (a1 0)),
+            ("q_int8_error_own_range_second", ownOk r1 (a2 1)),
+            ("input_unchanged", unch == "1")]
+          (st, verdict checks diff s!"multi={n} distinct={distinct} factory={b01 (via == "factory")} setabsmax={b01 (mode == "set")} firsttrained={b01 (isTrained f32 mA)} secondtrained={b01 (isTrained f32 mB)}")
+        | _, _, _ => (st, "BADOP qmulti outcome parse")
+      | _, _ => (st, "BADOP qmulti outcome")
+    | _, _, _ => (st, "BADOP qmulti")
+  | ["qnew", kind] =>
+    let valid := kind == "float32" || kind == "float16" || kind == "int8"
+    match post with
+    | ["ok", typ] => (st, verdict [("q_new_known_kind", valid && typ == kind)] none s!"known=1")
+    | ["err", isnil] => (st, verdict [("q_new_unknown_kind_refused", !valid && isnil == "1")] none s!"unknownkind=1")
+    | _ => (st, "BADOP qnew outcome")
+  | ["pqparams", dim] =>
+    match dim.toInt?, post with
+    | some dim, [m, nb, ctor] =>
+      let (mm, mnb) := calcPQParams dim
+      let divides := decide (dim % (mm : Int) = 0)
+      let mctor := if decide (dim > 0) && divides then "ok" else "err"
+      let diff := firstDiff [cmpTok "M" (toString mm) m, cmpTok "Nbits" (toString mnb) nb, cmpTok "NewPQIndex" mctor ctor]
+      (st, verdict [] diff s!"divides={b01 divides} usable={b01 (ctor == "ok")} positive={b01 (decide (dim > 0))}")
+    | _, _ => (st, "BADOP pqparams")
   | _ => (st, "BADOP unknown")
 
 def handler : Handler := { name := "train", σ := St, init := init, op := op }
